@@ -311,14 +311,19 @@ pub fn nonce_cookie_bits(nonce: &str) -> Option<(bool, bool)> {
 
 /// Encodes a PASSWORD-ALGORITHMS value from (algorithm, parameters) pairs.
 pub fn password_algorithms_value(algs: &[(u16, Vec<u8>)]) -> Vec<u8> {
+    // Items are padded to a 32-bit boundary *between* items; the padding of the last item coincides with
+    // the padding of the attribute itself (this is also what the library's own encoder produces and the
+    // only form its decoder accepts; RFC 8489 14.11 leaves the point open).
     let mut v = Vec::new();
-    for (a, params) in algs {
+    for (i, (a, params)) in algs.iter().enumerate() {
+        if i > 0 {
+            while v.len() % 4 != 0 {
+                v.push(0);
+            }
+        }
         v.extend_from_slice(&a.to_be_bytes());
         v.extend_from_slice(&(params.len() as u16).to_be_bytes());
         v.extend_from_slice(params);
-        while v.len() % 4 != 0 {
-            v.push(0);
-        }
     }
     v
 }
@@ -337,7 +342,11 @@ pub fn password_algorithms_parse(v: &[u8]) -> Option<Vec<(u16, Vec<u8>)>> {
             return None;
         }
         out.push((a, v[pos + 4..pos + 4 + l].to_vec()));
-        pos += 4 + pad4(l);
+        pos += 4 + l;
+        // inner padding (absent, partial or complete after the last item)
+        while pos % 4 != 0 && pos < v.len() {
+            pos += 1;
+        }
     }
     Some(out)
 }
